@@ -73,7 +73,8 @@ def gen_framing(rng):
                        "prefix-of-longer-name"])
     lead = rng.choice(["", "", " ", "\t"])
     payload_forms = [name, name + "," + nonce, name + "," + nonce + ",7", name + nonce,
-                     name + ",," + nonce, name + ",", name + ",,", name + ",," + nonce + ",,"]
+                     name + ",," + nonce, name + ",", name + ",,", name + ",," + nonce + ",,",
+                     name + ",a" + name + "," + nonce, name + "," + name + "," + name + ",", name + name + "," + nonce]
     reply = lead + rng.choice(payload_forms) + reply_eol(rng)
     faults = []
     if kind == "ok-delayed":
